@@ -1,5 +1,5 @@
 """
-C09, text formats — flat text and nested text of the template data and their converters back to the flat form.
+C09, text formats - flat text and nested text of the template data and their converters back to the flat form.
 
 Theorems: lean/BufrModel/Props/C09Text.lean over the model lean/BufrModel/View/Text.lean (renderers and converters
 character by character; value tokens, element names and `ast.literal_eval` are parameters).  This module is the tie
@@ -41,7 +41,7 @@ TRICKY_NAMES = [
     '###### subset 1 of 1 ######', '<<<<<< section 5 >>>>>>', '######', '<<<<<<', "it's", 'say "hi"', 'TRAILING   ', '   LEADING',
     'None', '(1, [2])', 'caf\xe9 \xff', 'NBSP\xa0', '\xa0', 'tab\tinside', 'dots....', '....', '. . .', 'X' * 57, 'X' * 58, 'Y' * 67,
     'Y' * 68, 'Z' * 90, 'long name with blanks ' * 5, 'W' * 66 + '\xe9\xe9\xe9', "Q' ", 'Q" ', '5', '-1', "'", '"', '\\', "\\'",
-    'NAME ENDING IN b', "NAME ENDING IN  b'", 'A12345', '301001 SEQ', '　wide', 'x y',
+    'NAME ENDING IN b', "NAME ENDING IN  b'", 'A12345', '301001 SEQ', '\u3000wide', 'x\u2009y',
 ]
 
 
